@@ -10,6 +10,7 @@ import (
 	"os"
 	"runtime"
 	"sync"
+	"time"
 )
 
 type replayFile struct {
@@ -140,7 +141,7 @@ func Event(s string)             { fmt.Println("VERIF-EVENT", s) }
 func Assumption(s string)        {}
 func Symbolic() bool             { return false }
 func Yield()                     { runtime.Gosched() }
-func Quiesce() int               { return 0 }
+func Quiesce() int               { time.Sleep(25 * time.Millisecond); return 0 }
 func Goroutines() int            { return runtime.NumGoroutine() }
 func BlockedDesc() string        { return "" }
 func WatchOn()                   {}
